@@ -528,7 +528,7 @@ var notCovered = map[string][]string{
 	},
 	"C18": {"regexp.Compile is external (uninterpreted validRE); example generation from the regex"},
 	"C19": {"MarshalJSON of the ordered maps; NewRuleASTNodes / NewStringSet API preconditions"},
-	"C20": {"agreement of the integer/float split of GuessSchemaType with the JSON scanner's classifier"},
+	"C20": {"agreement of the integer/float split of GuessSchemaType with the JSON scanner's classifier", "known finding: IsEqualSoft(null, array) is true, (array, null) false - the relation is proved for every other pair"},
 }
 
 func hasString(xs []string, x string) bool {
